@@ -55,7 +55,19 @@ class Fail(Exception):
         self.klass, self.detail = klass, detail
 
 
+def _mp_part(name: bytes, value: bytes) -> bytes:
+    return b'--b\r\nContent-Disposition: form-data; name="' + name + b'"\r\n\r\n' + value + b"\r\n"
+
+
+# a multipart body whose closing delimiter is NOT in the last message: the trailing CRLF / an empty final message still belong to the body
+MULTIPART_CHUNKS = {1: [_mp_part(b"a", b"1") + _mp_part(b"b", b"2") + _mp_part(b"a", b"3") + b"--b--\r\n"],
+                    2: [_mp_part(b"a", b"1") + _mp_part(b"b", b"2") + _mp_part(b"a", b"3") + b"--b--", b"\r\n"],
+                    3: [_mp_part(b"a", b"1"), _mp_part(b"b", b"2") + _mp_part(b"a", b"3") + b"--b--\r\n", b""]}
+
+
 def chunks_for(kind: str, n: int) -> List[bytes]:
+    if kind == "multipart":
+        return list(MULTIPART_CHUNKS[n])
     base = {"json": JSON_CHUNKS, "form": FORM_CHUNKS, "raw": RAW_CHUNKS}[kind]
     if n == len(base):
         return list(base)
@@ -114,7 +126,8 @@ def _asgi_scenario(job, V):
     payload = chunks_for(kind, nmsg)
     wire = [b"" if empties[i] and kind == "raw" else payload[i] for i in range(nmsg)]
     log: Dict[str, Any] = {"receives": 0, "delivered": [], "wire": wire}
-    ctype = {"json": b"application/json", "form": b"application/x-www-form-urlencoded", "raw": b"application/octet-stream"}[kind]
+    ctype = {"json": b"application/json", "form": b"application/x-www-form-urlencoded", "raw": b"application/octet-stream",
+             "multipart": b"multipart/form-data; boundary=b"}[kind]
 
     async def receive():
         # cancellation-safe like a server's queue: a receive() cancelled while waiting (asyncio.wait_for) has consumed nothing
@@ -219,6 +232,17 @@ async def p_form_then_body_close(req, V, log):
     return {"form": [f, f2], "body": [b], "same_form_object": f[0] == "ok" and f2[0] == "ok" and f[1] is f2[1]}
 
 
+async def p_multipart_form_twice_close(req, V, log):
+    """multipart parsing reads the stream itself (no cached body): form, form again (cached), close"""
+    f = await _get(req.form)
+    f2 = await _get(req.form)
+    try:
+        await req.close()
+    except ClientDisconnect:
+        pass
+    return {"form": [f, f2], "same_form_object": f[0] == "ok" and f2[0] == "ok" and f[1] is f2[1]}
+
+
 async def p_concurrent_body_json(req, V, log):
     async def later():
         await _maybe_sleep(V["w"][0])
@@ -262,9 +286,9 @@ async def p_poll_then_body(req, V, log):
 
 PROGRAMS = {"body2+stream": p_body_twice_then_stream, "concurrent-body": p_concurrent_bodies, "stream+body": p_stream_then_body,
             "json+body": p_json_then_body, "form+body+close": p_form_then_body_close, "concurrent-body-json": p_concurrent_body_json,
-            "close+body": p_close_then_body, "poll-disconnect+body": p_poll_then_body, "concurrent-body-stream": _p_two_readers("body", "stream"),
+            "close+body": p_close_then_body, "multipart-form+form+close": p_multipart_form_twice_close, "poll-disconnect+body": p_poll_then_body, "concurrent-body-stream": _p_two_readers("body", "stream"),
             "concurrent-stream-body": _p_two_readers("stream", "body"), "concurrent-stream-stream": _p_two_readers("stream", "stream")}
-PAYLOAD = {"poll-disconnect+body": "raw", "concurrent-body-stream": "raw", "concurrent-stream-body": "raw", "concurrent-stream-stream": "raw",
+PAYLOAD = {"multipart-form+form+close": "multipart", "poll-disconnect+body": "raw", "concurrent-body-stream": "raw", "concurrent-stream-body": "raw", "concurrent-stream-stream": "raw",
            "body2+stream": "raw", "concurrent-body": "raw", "stream+body": "raw", "json+body": "json", "form+body+close": "form",
            "concurrent-body-json": "json", "close+body": "raw"}
 
@@ -425,7 +449,7 @@ def concrete_asgi(job, cV) -> Optional[str]:
 
 
 # ------------------------------------------------------------------ WSGI
-W_PROGRAMS = ["body,body,stream", "stream,body,stream", "json,body,json", "form,body,form,close", "close,body,close,body", "body,form", "stream-partial,body"]
+W_PROGRAMS = ["body,body,stream", "stream,body,stream", "json,body,json", "form,body,form,close", "close,body,close,body", "body,form", "stream-partial,body", "body,stream-tiny", "json,stream-tiny,body"]
 
 
 def wsgi_scenario(prog: str, nchunks: int, empties_after: int):
@@ -450,6 +474,8 @@ def wsgi_scenario(prog: str, nchunks: int, empties_after: int):
                 obs.append(("ok", req.body))
             elif step == "stream":
                 obs.append(("ok", list(req.stream())))
+            elif step == "stream-tiny":  # the replay of a cached body in pieces of 2 bytes (chunk_size is a public argument)
+                obs.append(("ok", list(req.stream(2))))
             elif step == "stream-partial":
                 it = req.stream()
                 first = next(it, None)
@@ -490,6 +516,11 @@ def verdict_wsgi(prog, nchunks, obs, log, chunks) -> str:
                 raise Fail("body-not-cached-identical")
             cached_body = o[1]
             body_cached = True
+        elif step == "stream-tiny":
+            if not body_cached:
+                raise Fail("harness: stream-tiny is only used after the body was read")
+            if o[0] != "ok" or b"".join(o[1]) != full:
+                raise Fail("stream-after-body-does-not-replay", repr(o))
         elif step == "stream":
             if body_cached:
                 if o[0] != "ok" or b"".join(o[1]) != full:
